@@ -502,6 +502,8 @@ class StmtMixin:
         if parallel and self.numba and self.opt("race", True):
             racelog = []
             body.log = racelog
+        elif st.log is not None:
+            body.log = st.log
         symmark_body = len(SYMLOG)
         if self.feasible(body):
             for (s2, oc, pl) in self.exec_block(s.body, body):
@@ -517,6 +519,11 @@ class StmtMixin:
                     out.append((s2, oc, pl))
         if racelog is not None:
             self.race_obligations(s, k, racelog, c, hv, SYMLOG[symmark_body:], zs(start), zs(stop), step, names, tname)
+        if st.log is not None and st.log is not racelog:
+            # accesses made inside this loop also belong to the enclosing iteration (an enclosing prange loop must see them)
+            inner = racelog if racelog is not None else getattr(body, "log", None)
+            if inner:
+                st.log.extend(inner)
         # 4. normal exit
         ex = hv
         ex.log = st.log
